@@ -736,10 +736,11 @@ impl<'a> Parser<'a> {
         }
 
         // Check for getter/setter
-        let method_kind = if self.check_keyword("get") {
+        // (`get`/`set` directly followed by `=`, `;`, `(`... is a member that is named get/set)
+        let method_kind = if self.check_keyword("get") && self.peek_is_property_name() {
             self.advance();
             MethodKind::Get
-        } else if self.check_keyword("set") {
+        } else if self.check_keyword("set") && self.peek_is_property_name() {
             self.advance();
             MethodKind::Set
         } else {
@@ -4904,6 +4905,7 @@ impl<'a> Parser<'a> {
             | TokenKind::String(_)
             | TokenKind::Number(_)
             | TokenKind::LBracket
+            | TokenKind::Hash // private name: get #x() {}
             | TokenKind::Star => true, // Star for async *gen() {}
             // Keywords can be property names
             _ if self.is_keyword_kind(&next.kind) => true,
